@@ -327,7 +327,9 @@ def o7(W, ob):
         pass
 
 
-from . import helpers
+from . import helpers, wiring
+
+from . import initial
 
 OBLIGATIONS = [
     ('C12.O1', 'typestate', 'the transition relation extracted from all stores to UdpProtocol.state with their guards is the '
@@ -345,4 +347,6 @@ OBLIGATIONS = [
     ('C12.O7', 'Disconnected is terminal', 'both handle_event implementations stop the endpoint on Event::Disconnected; poll/handle_message '
      'emit events only while Running.', o7),
     ('C12.H', 'helpers the rules above rely on', 'the bodies of the helpers named by this property\'s rules compute what the rules assume (protocol_state_tests); see rules/helpers.py', helpers.bundle('protocol_state_tests')),
+    ('C12.W', 'configuration wiring', 'at every call site that passes a field read `x.B` for a parameter `A` the callee has no same-typed parameter `B`; in every struct literal no parameter `B` is stored in field `A` while a same-typed parameter `A` / field `B` exists (builder -> constructor -> endpoint fields: timeouts, window, fps are not crossed); see rules/wiring.py', wiring.rule),
+    ('C12.I', 'initial state', 'every constructor gives the fields this property\'s rules interpret (NULL_FRAME = none / nothing yet, 0 = first frame, latches open, typestate start) the value listed in tables/initial_state.json; every field compared with NULL_FRAME anywhere is listed; see rules/initial.py', initial.rule_for('C12')),
 ]
